@@ -316,8 +316,11 @@ class SliceHarness:
 
 
 def run_unit(desc):
+    import json
+    import os
+    from .report import REPLAY_DIR, VERIF, native
     h = SliceHarness().run()
-    return {
+    rep = {
         "unit": f"{FILE}::slice_",
         "kind": "K8 lemma over the C05 contracts (interval composition) + closed-form lemmas of the stage specs",
         "functions": h.functions,
@@ -327,3 +330,18 @@ def run_unit(desc):
         "bounded": [],
         "replayable": {"runner": "slicerun.py", "module": "-", "name": "slice"},
     }
+    if h.unsupported or desc.get("tier") == "thorough":
+        # a pipeline built from other stages than those with closed forms is out of subset: the native comparison with list slicing
+        # decides, BOUNDED; thorough tier: the same table as a cross-check of the lemma
+        prop = desc.get("prop", "C07")
+        r, err = native([os.path.join(VERIF, "rxvc", "slicerun.py"), "replay", "-", "slice",
+                         json.dumps({"replay_path": os.path.join(REPLAY_DIR, f"{prop}-standin-slice.py"), "prop": prop, "oid": rep["unit"] + "/bounded-standin"})], timeout=900)
+        st = r if r is not None else {"found": [], "error": err, "cases": 0}
+        if h.unsupported:
+            rep["standin"] = st
+        rep["bounded"].append({"function": rep["unit"], "bound": "slicerun.py: sources of length 0..5, start / stop in {None, -6..6}, step in {None, 1, 2, 3, 6}, the three "
+                               "forms source[a:b:c], ops.slice(a, b, c), source[i], against list slicing", "cases": st.get("cases", 0),
+                               "mismatches": len(st.get("found", [])), "role": "stand-in (out of subset)" if h.unsupported else "cross-check against CPython"})
+        if not h.unsupported and st.get("found") and all(x.verdict == "proved" for x in h.results):
+            rep["crash"] = f"cross-check failed: the lemma is proved but list slicing disagrees: {json.dumps(st['found'][0])[:400]}"
+    return rep
